@@ -949,9 +949,11 @@ def _gap_from_counter(ctx, H, fn, rec, read):
             p = ctx.prog.parent.get(p)
         return out
     per_piece = loops_around(inits[0]) == loops_around(gdefs[0])
-    same_iter = isinstance(ctx.prog.parent.get(grows[0]), ast.For)
+    same_iter = isinstance(ctx.prog.parent.get(grows[0]), (ast.For, ast.While))
     if per_piece and same_iter:
         return lv.id, gdefs[0], "%s - (bytes read in this piece)" % repr(base)
+    if per_piece:
+        return lv.id, gdefs[0], "?%s - %s (where the counter %s grows was not understood)" % (repr(base), T, T)
     return lv.id, gdefs[0], "%s - (bytes read in the whole file so far: the counter %s is not reset for every piece)" % (repr(base), T)
 
 
@@ -1010,6 +1012,9 @@ def _partial_piecewise(v):
     return False
 
 
+_CONSTRUCTORS = ("list", "bytearray", "bytes", "dict", "set", "tuple", "sha1", "sha256", "open", "iter", "memoryview", "deque")
+
+
 def _unresolved_locals(f, v, want, accepted, ctx=None):
     """Identifiers of the extracted text that are local variables of the function the fact was read in and occur in no
     specification text for this fact: abbreviations the extractor did not reduce (target = ..., amount = ...)."""
@@ -1028,10 +1033,17 @@ def _unresolved_locals(f, v, want, accepted, ctx=None):
             if isinstance(n, ast.Name) and isinstance(n.ctx, (ast.Store, ast.Del)):
                 count[n.id] = count.get(n.id, 0) + 1
         mutated = {n.func.value.id for n in own_nodes(g_.node) if isinstance(n, ast.Call) and isinstance(n.func, ast.Attribute) and isinstance(n.func.value, ast.Name)}
+        plain = {}
         for n in own_nodes(g_.node):
-            if isinstance(n, ast.Assign) and len(n.targets) == 1 and isinstance(n.targets[0], ast.Name) and count.get(n.targets[0].id) == 1 and n.targets[0].id not in mutated \
-                    and isinstance(n.value, (ast.Attribute, ast.BinOp, ast.IfExp, ast.Name, ast.Subscript, ast.Compare, ast.BoolOp, ast.UnaryOp)):
-                stored.add(n.targets[0].id)
+            # (also a name given one value per arm of a case distinction: every store of it is such an assignment, none reads it)
+            if isinstance(n, ast.Assign) and len(n.targets) == 1 and isinstance(n.targets[0], ast.Name) and n.targets[0].id not in mutated \
+                    and isinstance(n.value, (ast.Attribute, ast.BinOp, ast.IfExp, ast.Name, ast.Subscript, ast.Compare, ast.BoolOp, ast.UnaryOp, ast.Call)) \
+                    and not (isinstance(n.value, ast.Call) and norm(n.value.func).split(".")[-1] in _CONSTRUCTORS) \
+                    and not any(isinstance(x, ast.Name) and x.id == n.targets[0].id for x in ast.walk(n.value)):
+                plain[n.targets[0].id] = plain.get(n.targets[0].id, 0) + 1
+        for nm_, k_ in plain.items():
+            if count.get(nm_) == k_:
+                stored.add(nm_)
     out = []
     for m in re.finditer(r"(?<![A-Za-z_0-9.])([A-Za-z_][A-Za-z_0-9]*)(?![A-Za-z_0-9(])", v):
         nm = m.group(1)
